@@ -323,3 +323,41 @@ func VC15_Refresh() {
 	rt.Assert(got == b, "the pin is honoured for max(dialog timeout, Expires) counted from the latest establishing response")
 	rt.Reach("end")
 }
+
+// VC04_BusyTable: "no matter how many unrelated requests have advanced the rotation in between": every request handed to
+// a backend leaves a transaction binding in the same table that holds the dialog pins. After the dialog is established the
+// table receives F further bindings of the shape the proxy creates (newer than the pin, none of them expired), then more
+// unrelated requests pass through the real pipeline; the dialog's next request still reaches the pinned backend.
+func VC04_BusyTable() {
+	L, NB, F := rt.Param("L"), rt.Param("NB"), rt.Param("F")
+	w := newWorld(worldOpts{nBackends: NB})
+	d := genDlg(L)
+	b := establish(w, d, 200)
+	if b < 0 {
+		return
+	}
+	other := w.bs[(b+1)%NB]
+	tbl := w.p.dialogBasedBackends
+	rt.Unwind(2*F + 100) // loops of the repository over the table may run once or twice per entry
+	for i := 0; i < F; i++ {
+		if i%1000 == 0 {
+			faketime.Advance(faketime.Millisecond)
+		}
+		tbl.backends["OPTIONS-z9hG4bKload"+itoa(i)] = &ExpireBackend{backend: other, expire: faketime.Now().Add(tbl.timeout)}
+	}
+	for i := 0; i < 2; i++ {
+		opt := "OPTIONS sip:svc@" + wService + " SIP/2.0\r\nVia: SIP/2.0/UDP 10.0.2.7:5060;branch=z9hG4bKun" + itoa(i) + "\r\nFrom: <sip:u@example.com>;tag=u" + itoa(i) +
+			"\r\nTo: <sip:svc@" + wService + ">\r\nCall-ID: unrelated" + itoa(i) + "\r\nCSeq: 1 OPTIONS\r\nContent-Length: 0\r\n\r\n"
+		rt.Assert(w.deliver(opt, "10.0.2.7", 5060, true), "unrelated request decodes")
+	}
+	idx := rt.Int("rotation", 0, 1000000)
+	rt.Assume((idx+1)%NB != b)
+	w.rr.index = idx
+	before := counts(w)
+	method := []string{"BYE", "UPDATE"}[rt.Choice("method", 2)]
+	rt.Assert(w.deliver(c04Request(method, d, rt.Bool("from-callee"), true, ""), "10.0.2.2", 5060, true), "in-dialog request decodes")
+	got, n := newSends(w, before)
+	rt.Assert(n == 1, "the in-dialog request is delivered exactly once")
+	rt.Assert(got == b, "the pin survives any amount of unrelated traffic within its lifetime")
+	rt.Reach("end")
+}
